@@ -19,7 +19,9 @@ SRC = ["quantized_bits(8,2,1)", "quantized_bits(6,0,0)", "quantized_bits(4,1,1)"
 # (kind, string).  alpha=1.0 spelled out: a layer turns alpha=None kernels into auto_po2
 WQ = [("fixed", "quantized_bits(4,0,1,alpha=1.0)"), ("fixed", "quantized_bits(6,2,1,alpha=1.0)"), ("fixed-asym", "quantized_bits(3,0,0,alpha=1.0)"),
       ("fixed-asym", "quantized_bits(5,1,0,alpha=1.0)"), ("fixed", "quantized_bits(8,0,1,alpha=1.0)"),
-      ("po2", "quantized_po2(4)"), ("po2", "quantized_po2(3)"), ("ternary", "ternary(alpha=1.0)"), ("binary", "binary(alpha=1.0)"),
+      ("po2", "quantized_po2(4)"), ("po2", "quantized_po2(3)"),
+      # max_value that is not a power of two: the largest code is the next power of two above it (log-nearest rounding of the clipped value)
+      ("po2-cap", "quantized_po2(4,max_value=3)"), ("po2-cap", "quantized_po2(5,max_value=6)"), ("ternary", "ternary(alpha=1.0)"), ("binary", "binary(alpha=1.0)"),
       ("auto_po2", "quantized_bits(4,0,1,alpha='auto_po2')"), ("auto_po2", "quantized_bits(6,1,1,alpha='auto_po2')")]
 BQ = ["quantized_bits(6,1,1)", "quantized_bits(8,3,0)", "quantized_bits(4,0,1)", "quantized_po2(4)", None]
 AQ = ["quantized_relu(6,2)", "quantized_bits(6,2,1)", "quantized_relu(4,1)", "quantized_bits(4,1,0)", "quantized_relu(3,0)"]
@@ -29,15 +31,30 @@ def pick(rng, l):
   return l[int(rng.integers(0, len(l)))]
 
 
-def gen_model(rng, idx):
+WL_COUNT = [0]
+
+
+def gen_model(rng, idx, directed=None):
   import tensorflow.keras.layers as L
   from tensorflow.keras import Model, Input
   import qkeras
+  if directed is not None:
+    # one bias-free dense layer fed directly by the source quantizer: with extreme weights and extreme inputs every
+    # product and the whole sum sit at the corner of the reported multiplier / accumulator types
+    k, ws = WQ[directed]
+    meta = {"kind": "dense-corner", "layers": [(f"d{idx}_0", "QDense", ws, None)]}
+    inp = Input((4,), name=f"i{idx}")
+    x = qkeras.QDense(int(rng.integers(1, 4)), kernel_quantizer=ws, use_bias=False, name=f"d{idx}_0")(inp)
+    return Model(inp, x, name=f"qm{idx}"), meta
   kind = int(rng.integers(0, 3))
   meta = {"kind": ["dense", "conv2d", "conv1d"][kind], "layers": []}
 
   def wl(make, name, **kw):
-    k, ws = pick(rng, WQ)
+    # rotate over the kernel families so that the few models of the quick tier cannot skip one
+    kinds = sorted({k for k, _ in WQ})
+    WL_COUNT[0] += 1
+    kd = kinds[WL_COUNT[0] % len(kinds)]
+    k, ws = pick(rng, [w for w in WQ if w[0] == kd])
     bq = pick(rng, BQ)
     arg = "depthwise_quantizer" if make is qkeras.QDepthwiseConv2D else "kernel_quantizer"
     meta["layers"].append((name, make.__name__, ws, bq))
@@ -138,9 +155,9 @@ def main():
   texts, items = [], []
   n_layers = n_ok = n_est = 0
   sample = None
-  for i in range(n):
+  for i in range(n + len(WQ)):
     try:
-      m, meta = gen_model(rng, i)
+      m, meta = gen_model(rng, i, directed=(i - n if i >= n else None))
     except Exception as e:  # pylint: disable=broad-except
       rep.violation(f"build-{i}", f"model construction raised {type(e).__name__}: {str(e)[:300]}", {})
       continue
@@ -150,7 +167,7 @@ def main():
     wlayers = [l for l in m.layers if type(l).__name__ in ("QDense", "QConv1D", "QConv2D", "QDepthwiseConv2D")]
     subm = Model(m.inputs, [l.output for l in m.layers[1:]])
     names = [l.name for l in m.layers[1:]]
-    for wmode in (["random", "all-max", "all-min", "signs"] if rep.tier == "thorough" or i % 2 == 0 else ["random", "signs"]):
+    for wmode in (["random", "all-max", "all-min", "signs"] if rep.tier == "thorough" or i % 2 == 0 or i >= n else ["random", "signs"]):
       ws = []
       for w in m.get_weights():
         if wmode == "random":
